@@ -114,6 +114,12 @@ func c07(tier string) []*explore.Scenario {
 			out = append(out, c07Unread(m, read, false, bound), c07Unread(m, read, true, bound))
 		}
 	}
+	if tier != "thorough" {
+		// the rest of the statement's range (0..5 unread) under the default schedule
+		for m := 3; m <= 5; m++ {
+			out = append(out, c07Unread(m, 0, false, 0), c07Unread(m, 1, true, 0))
+		}
+	}
 	// deadline expiry while blocked at each position of the ping-pong
 	for j := 0; j <= 2; j++ {
 		out = append(out, c07Deadline(j, bound, false), c07Deadline(j, bound, true))
